@@ -85,6 +85,13 @@ impl<T: Copy> Block for RationalResampler<T> {
                 opos += 1;
                 if opos == o.len() {
                     out_full = true;
+                    if self.counter > 0 {
+                        // Out of space with copies of this sample still owed:
+                        // leave the sample in the input and pick it up again
+                        // next time, exactly where we stopped.
+                        taken -= 1;
+                        self.counter -= self.interp;
+                    }
                     break 'outer;
                 }
             }
